@@ -62,8 +62,14 @@ func runC18(raw json.RawMessage, w *Writer) {
 	switch c.Kind {
 	case "capture":
 		var back time.Time
-		r, _ := guard(func() { back = rtp.NewAbsCaptureTimeExtension(inst(c.T)).CaptureTime() })
-		w.Emit(Ev{"ev": "capture", "t": c.T, "res": r, "back": instJ(back)})
+		var raw uint64
+		r, _ := guard(func() {
+			e := rtp.NewAbsCaptureTimeExtension(inst(c.T))
+			raw = e.Timestamp
+			back = e.CaptureTime()
+		})
+		// ntp: the raw 32.32 value (diagnostic: binds the symbolic transcription NtpTimeApa to the code)
+		w.Emit(Ev{"ev": "capture", "t": c.T, "res": r, "back": instJ(back), "ntp": be64(raw)})
 	case "offset":
 		var got *time.Duration
 		r, _ := guard(func() {
